@@ -272,6 +272,42 @@ def gen_ss(rng):
     return "ss " + " ".join(toks)
 
 
+def gen_tq(rng):
+    """real trace table + the real trace-id query pipeline (Pull / Release): scans that succeed, fail after the batch
+    hand-over (block-scan quota), are released early or after one Pull"""
+    toks = []
+    nb = 0
+    held = set()
+    for _ in range(rng.choice([4, 6, 9, 12, 16])):
+        r = rng.random()
+        if r < 0.28 or nb == 0:
+            toks.append("w")
+            nb += 1
+        elif r < 0.38:
+            toks.append("fa")
+        elif r < 0.82:
+            pool = ["t%d%s" % (n, x) for n in range(1, nb + 1) for x in "ab"]
+            ids = rng.sample(pool, rng.randrange(1, min(len(pool), 5) + 1))
+            if rng.random() < 0.25:
+                ids.append("zz%d" % rng.randrange(9))
+            mode = rng.choice("oooofffffepp")
+            bs = 0 if mode in "of" and rng.random() < 0.8 else rng.choice([0, 1, 2])
+            toks.append("q%s:%d:%s" % (mode, bs, ",".join(ids)))
+        elif r < 0.92:
+            k = rng.randrange(3)
+            toks.append("a%d" % k)
+            held.add(k)
+        else:
+            k = rng.choice(sorted(held)) if held else rng.randrange(3)
+            toks.append("r%d" % k)
+            held.discard(k)
+    pool = ["t%d%s" % (n, x) for n in range(1, nb + 1) for x in "ab"]
+    toks.append("qo:0:" + ",".join(pool))
+    if rng.random() < 0.3:
+        toks.append("c")
+    return "tq " + " ".join(toks)
+
+
 # ----------------------------------------------------------------------------------------
 # parsing the dumps
 
@@ -723,6 +759,67 @@ def oracle_ss(line, out):
     return None
 
 
+def oracle_tq(line, out):
+    """real trace table + trace-id query pipeline: a query (whatever its scan outcome: success, error after the batch
+    was handed over, released early / after one Pull) gives back exactly the pins it took — snapshot and part
+    reference counts after Release equal those before; the table keeps its own reference on its current snapshot;
+    later full queries still return every trace written"""
+    ops = line.split()[1:]
+    if "PANIC" in out or "CRASH" in out or out == "bad-op":
+        return "implementation failed: " + out[:300]
+    dumps = out.split(" | ")
+    if len(dumps) != len(ops):
+        return "expected %d dumps, got %d" % (len(ops), len(dumps))
+    nb = 0
+    closed = False
+    prev = None
+    for i, (op, ds) in enumerate(zip(ops, dumps)):
+        where = "step %d (%s): " % (i, op)
+        f = dict(t.split("=", 1) for t in ds.split() if "=" in t)
+        refused = any("=" not in t for t in ds.split())
+        if op == "w" and not refused:
+            nb += 1
+        if op == "c":
+            closed = True
+        if closed:
+            prev = f
+            continue
+        if f["C"] != "-":
+            epoch, ref, lst = f["C"].split(":", 2)
+            heldm = [t.split(":", 3) for t in f.get("H", "").split(";") if t]
+            want = 1 + sum(1 for h in heldm if h[1] == epoch)
+            if int(ref) != want:
+                return where + "current snapshot has ref %s, expected %d (table + holders)" % (ref, want)
+            others = {h[1]: parse_list(h[3]) for h in heldm if h[1] != epoch}
+            for t in f.get("W", "").split(","):
+                if t:
+                    name, pref = t.split(":")
+                    w2 = 1 + sum(1 for l in others.values() if name in l)
+                    if int(pref) != w2:
+                        return where + "part %s of the current snapshot has ref %s, expected %d" % (name, pref, w2)
+        elif nb > 0:
+            return where + "the table lost its current snapshot"
+        if op[0] == "q" and not refused:
+            if prev is not None:
+                for key in ("C", "W", "H"):
+                    if f.get(key) != prev.get(key):
+                        return where + "the query did not give back exactly what it pinned: %s was %s, now %s" % (key, prev.get(key), f.get(key))
+            mode = op[1]
+            _, bs, ids = op.split(":", 2)
+            ids = [x for x in ids.split(",") if x]
+            known = [x for x in ids if re.fullmatch(r"t(\d+)[ab]", x) and int(x[1:-1]) <= nb]
+            if mode == "o":
+                want = len(known) if int(bs) == 0 else None
+                if f["q"] == "ERR":
+                    return where + "an unrestricted query failed"
+                if want is not None and f["q"] != "%d/%d" % (want, want):
+                    return where + "query returned %s traces/spans, %d of the requested traces were written" % (f["q"], want)
+            if mode == "e" and f["q"] != "0/0":
+                return where + "released without Pull but got %s" % f["q"]
+        prev = f
+    return None
+
+
 class C05(vlib.Spec):
     prop = "C05"
     level = "proof"
@@ -762,7 +859,8 @@ class C05(vlib.Spec):
         "snapshot/partWrapper code with measure's (extractor), sidx by reading",
         "the flusher's pinned snapshot equals the current one when its introduction is applied (single-threaded driver)",
         "trace publication fence: model + theorem + source-shape tie only (no trace driver)",
-        "real sidx (sx) and real stream table (ss) cases are checked by the oracle only; the Lean model abstains",
+        "real sidx (sx), real stream tables (ss) and real trace table + query pipeline (tq) cases are checked by the "
+        "oracle only; the Lean model abstains",
     ]
     rule = ("random op sequences (2-40 ops + tail): batch / acquire k / release k (k<6) / flush-all / flush subset / "
             "merge of a random same-kind (sometimes mixed, sometimes unknown-id) subset / sync-remove / close (holders "
@@ -775,19 +873,21 @@ class C05(vlib.Spec):
 
     def cases(self, rng, n):
         out = []
-        for _ in range(n * 58 // 100):
+        for _ in range(n * 52 // 100):
             out.append(gen_ms(rng))
-        for _ in range(n * 15 // 100):
+        for _ in range(n * 14 // 100):
             out.append(gen_tx(rng))
-        for _ in range(n * 17 // 100):
+        for _ in range(n * 15 // 100):
             out.append(gen_sx(rng))
-        while len(out) < n:
+        for _ in range(n * 10 // 100):
             out.append(gen_ss(rng))
+        while len(out) < n:
+            out.append(gen_tq(rng))
         return out
 
     def compare(self, line, go_out, lean_out):
         # real sidx / real stream table: the op-level model abstains (oracle only); ms / tx: string-exact
-        if line.startswith(("sx ", "ss ")):
+        if line.startswith(("sx ", "ss ", "tq ")):
             return True
         return go_out == lean_out
 
@@ -797,9 +897,9 @@ class C05(vlib.Spec):
     def oracle(self, line, g):
         kind = line.split(" ", 1)[0]
         for t in line.split()[1:]:
-            key = "op:" + kind + ":" + (t[0] if kind == "tx" else (t[:2] if t[:2] in ("fa", "fe", "f:", "m:", "s:", "pm", "ps", "cm", "rb", "ff", "q:", "e:") else t[0]))
+            key = "op:" + kind + ":" + (t[0] if kind == "tx" else (t[:2] if t[:2] in ("fa", "fe", "f:", "m:", "s:", "pm", "ps", "cm", "rb", "ff", "q:", "e:", "qo", "qf", "qe", "qp") else t[0]))
             self.hist[key] = self.hist.get(key, 0) + 1
-        msg = {"ms": oracle_ms, "tx": oracle_tx, "sx": oracle_sx, "ss": oracle_ss}[kind](line, g)
+        msg = {"ms": oracle_ms, "tx": oracle_tx, "sx": oracle_sx, "ss": oracle_ss, "tq": oracle_tq}[kind](line, g)
         if kind == "sx" and msg is None and re.search(r"(pm|ps):[\d,]+ (a\d |r\d )*(cm|rb)", line):
             self.hist["sx:prepare-then-finalise"] = self.hist.get("sx:prepare-then-finalise", 0) + 1
         if msg is not None:
